@@ -30,7 +30,7 @@ def post(ctx, cases, outs, sj, state):
 SPEC = {
     "uses_gen": ["Crypto"],
     "cmd": "c10",
-    "budget": (12, 250),
+    "budget": (12, 150),
     "model_vos": ["Model/Secp.vo", "Model/SigAccept.vo"],
     "judge": judge,
     "post": post,
